@@ -172,32 +172,7 @@ def _kf_c13_1(case, outcome):
     return bool(outcome.get("oracle") == "race" and any(str(o).startswith("test.op#") for o in ops))
 
 
-def _stmts_by_tag(body, out):
-    for st in body:
-        if "tag" in st:
-            out[str(st["tag"])] = st
-        for key in ("body", "then", "else"):
-            _stmts_by_tag(st.get(key, []), out)
-    return out
-
-
-def _kf_c13_2(case, outcome):
-    import re
-
-    if outcome.get("oracle") != "race" or not case["ast"].get("select"):
-        return False
-    by_tag = _stmts_by_tag(case["ast"]["body"], {})
-    for b in case["ast"].get("blocks") or []:
-        _stmts_by_tag(b, by_tag)
-    for o in (outcome.get("details") or {}).get("ops") or ():
-        m = re.search(r"#k?(\d+)$", str(o))
-        st = by_tag.get(m.group(1)) if m else None
-        if st and "%sel0" in [st.get("src"), st.get("dst"), st.get("out"), *st.get("ins", [])]:
-            return True
-    return False
-
-
-TRIGGERS = {"reader_executed_by_every_core_is_not_a_dependency_source": _kf_c13_1, "alias_through_select_is_not_followed": _kf_c13_2}
+TRIGGERS = {"reader_executed_by_every_core_is_not_a_dependency_source": _kf_c13_1}
 
 
 def shrink(case):
